@@ -471,7 +471,9 @@ class Interp:
             return self.call(Closure(("x",), t[2], env[0], env[1]), (a,))
         if op == "defncall":
             clo = Closure((), t[1], env[0], env[1])
-            # defn assigns in the Python scope even under a let of that name
+            # defn assigns in the Python scope even under a let of that name; the call reads it
+            self._note((id(env[0]), "f"), True)
+            self._note((id(env[0]), "f"), False)
             env[0].vars["f"] = clo
             return self.call(clo, ())
         if op in ("with_s", "with_n"):
@@ -487,7 +489,7 @@ class Interp:
                 self.ev(("cm", site, "exit"), None)
                 raise
             except BaseException as e:
-                self.ev(("cm", site, "exit"), type(e).__name__)
+                self.ev(("cm", site, "exit"), "NameError" if isinstance(e, NameError) else type(e).__name__)
                 if op == "with_s":
                     return None
                 raise
